@@ -1,5 +1,5 @@
 (* C19 -- concrete witnesses used by the non-vacuity example *)
-From SG Require Import Base.Prelude C19.Json C19.JsonSplice C19.Reserved C19.SpliceProofs.
+From SG Require Import Base.Prelude C19.Json C19.JsonSplice C19.Reserved C19.SpliceProofs C19.Accept C19.ReadPath C19.AcceptV.
 Open Scope N_scope.
 
 Lemma nonvacuous_witness :
@@ -20,3 +20,19 @@ Proof.
   - cbn [snd]. change [34; 120; 34] with ([] ++ (c_quote :: [120] ++ [c_quote]) ++ []).
     constructor; try reflexivity. now constructor.
 Qed.
+
+Lemma nonvacuous_roundtrip_witness :
+  let idv := fun v : vk => v in
+  let raw := [([97], KNum, false); ([95; 118; 118], KObj, false); ([97], KStr, false); (k_exp, KNum, false)] in
+  let mt := {| m_cv := true; m_deleted := false; m_exp := true; m_atts := ANil |} in
+  accept_v vk idv idv EPut (VObj raw true) =
+    VStored {| sd_ms := [([95; 118; 118], KObj); ([97], KStr)]; sd_trailing := false |} false /\
+  accept_v vk idv idv EImport (VObj [([97], KNum, false); ([97], KStr, false)] false) =
+    VStored {| sd_ms := [([97], KNum); ([97], KStr)]; sd_trailing := false |} true /\
+  read idv XChanges mt {| sd_ms := [([95; 118; 118], KObj); ([97], KStr)]; sd_trailing := false |} =
+    Some [([95; 118; 118], OU KObj); ([97], OU KStr); (k_id, OG); (k_rev, OG); (k_cv, OG)] /\
+  read idv (XGet true true) mt {| sd_ms := [([97], KNum); ([97], KStr)]; sd_trailing := false |} =
+    Some [([97], OU KStr); (k_id, OG); (k_rev, OG); (k_revisions, OG); (k_exp, OG); (k_cv, OG)] /\
+  leak EPutNE k_exp KTrue = true /\ leak EBlip k_cv KStr = true /\ leak EImport k_deleted KTrue = true /\
+  leak EPut k_exp KNull = true /\ leak EBlip k_attachments KNull = true.
+Proof. intros idv raw mt. repeat split; vm_compute; reflexivity. Qed.
